@@ -115,7 +115,8 @@ def run_exp(spec: dict) -> dict:
     """One call of the real krylov_exp_impl / krylov_exp on the instance `spec`; trace + atoms + margins."""
     import torch
     from emu_base import _verif
-    from emu_base.math import krylov_exp as ke
+    import importlib
+    ke = importlib.import_module("emu_base.math.krylov_exp")
 
     warnings.filterwarnings("ignore")
     o = kr.build_exp(spec)
@@ -291,7 +292,8 @@ def realise_exp_path(task: dict) -> dict:
 def run_min(spec: dict) -> dict:
     import torch
     from emu_base import _verif
-    from emu_base.math import krylov_energy_min as km
+    import importlib
+    km = importlib.import_module("emu_base.math.krylov_energy_min")
 
     warnings.filterwarnings("ignore")
     b = kr.build_min(spec)
@@ -513,7 +515,12 @@ def judge(ctx: Ctx, prefix: str, results: list[dict], name: str, strict: bool = 
         if not clause.startswith("req:"):
             raise MachineryError(f"trace {i + 1} of {name} malformed: {v} spec={r['spec']}")
         cls = r["spec"].get("cls") or r["spec"].get("spectrum") or r["spec"].get("backend", "?")
-        key = f"{prefix}:{clause[4:]}:{cls}" + (f":{r['exc']}" if r.get("exc") and "raise" in clause else "")
+        # canonical key: clause, operator class, and WHERE on the control path it happened
+        where = ""
+        if r.get("rec"):
+            it = r["rec"]["iters"]
+            where = ":" + (r.get("kind") or "?") + ("@1" if it == 1 else "@>1")
+        key = f"{prefix}:{clause[4:]}:{cls}{where}" + (f":{r['exc']}" if r.get("exc") and "raise" in clause else "")
         nviol += 1
         ctx.violation(key, f"{name}: real execution rejected by KrylovTrace at event {v[1]}: {clause}",
                       {"spec": r["spec"], "record": r.get("rec"), "exception": r.get("exc"), "atom": r.get("atom"),
